@@ -28,7 +28,7 @@ import (
 type c16Key struct {
 	DB   int    `json:"db"`
 	Name string `json:"name"`
-	Kind string `json:"kind"` // string list hash
+	Kind string `json:"kind"`   // string list hash
 	TTL  int64  `json:"ttl_ms"` // 0: none
 }
 
@@ -40,8 +40,8 @@ type c16Case struct {
 	KeyExists string   `json:"key_exists"`
 	Pre       string   `json:"preexisting"` // "", name of a key that already exists on the target
 	TargetDB  int      `json:"target_db"`
-	Filter    string   `json:"filter"` // "", "key-white-p", "db-black-1"
-	Vanish    string   `json:"vanish"` // "", "<db>/<key>@dump", "<db>/<key>@pttl"
+	Filter    string   `json:"filter"`         // "", "key-white-p", "db-black-1"
+	Vanish    string   `json:"vanish"`         // "", "<db>/<key>@dump", "<db>/<key>@pttl"
 	KeyFile   int      `json:"key_file_lines"` // -1: SCAN mode; n: key file with the first n keys of db 0 (+ missing ones)
 }
 
